@@ -1,22 +1,25 @@
 /-
   Props/C07.lean — PROPERTY THEOREMS for C07 (well-formed input never aborts the run; unalignable
-  queries just yield no record).  PARTIAL: the model makes every Python raise point of the
-  alignment logic explicit (`Except Err`), and the theorems below show none of them is reached on
-  the first pass; exceptions inside numpy / scipy / pandas on degenerate arrays, and the
-  second-pass / join glue, are exercised by the degenerate stream of the harness, not proved.
+  queries just yield no record).  The model makes every Python raise point of the alignment logic
+  explicit (`Except Err`), and the theorems below show none of them is reached — in ANY output mode
+  (`C07_execute_total`): first pass, fragments, second pass, grouping, joins (after the `fix:` of
+  the trailing-trim loop, F11), mode dispatch.  Writing is total on rows that are valid matchings
+  (`C07_render_total_of_valid`).
 
-  FULL STATEMENT (kept visible, not proved): "for all well-formed maps, seed tables, modes and
-  allowed parameters `runProgram … ≠ .error _`".  Proved: single-pass and 'separate' mode are total
-  (`C07_single_mode_total`, `C07_separate_mode_total`).  Missing for the full statement: totality of
-  `joinRows` on rows whose first segment was trimmed by the resolver (left-trimmed segments may end
-  on unpaired positions), and of the HitEnum walk on the (known-finding) candidates that are not
-  valid matchings.
+  FULL STATEMENT: "for all well-formed maps, seed tables, modes and allowed parameters
+  `runProgram … ≠ .error _`".  Proved: `execute` is total in every mode; rendering is total on
+  valid matchings.  What remains outside the theorems (PARTIAL): (1) the HitEnum walk on the
+  known-finding candidates (KF-a / KF-b, see C01) that are not valid matchings — the walk is total
+  on those too after F1, but this is exercised by the harness rather than proved; (2) exceptions
+  inside numpy / scipy / pandas on degenerate arrays (the seed stage is a parameter of the model),
+  which the degenerate end-to-end stream exercises against the real program.
 -/
 import Props.Defs
 import Props.C18
 import Proofs.SrcBlind
 import Proofs.Compose
 import Proofs.SecondPass
+import Proofs.Total
 namespace Coma.Props
 open Coma Coma.Spec
 
@@ -54,9 +57,36 @@ theorem C07_second_pass_total (cfg : Cfg) (hP : GoodParams cfg.P) (refs : List O
     ∃ second, secondPass cfg refs t qs first it = .ok second :=
   Coma.Proofs.secondPass_total cfg hP refs t qs it hrefs hqs hids hseeds first h1
 
-/-- whole-run totality of the alignment logic for the modes without a join: 'separate' (first- and
-    second-pass files) and single-pass.  (The join of 'joined' / 'all' / 'best' is the part of the
-    full statement that is not proved.) -/
+/-- whole-run totality of the alignment logic, EVERY output mode ('single', 'separate', 'joined',
+    'all', 'best'): first pass, fragments, second pass, grouping, joins, mode dispatch -/
+theorem C07_execute_total (cfg : Cfg) (mode : Mode) (hP : GoodParams cfg.P) (refs : List OMap) (t : SeedTable) (qs : List OMap) (it : Int)
+    (hrefs : ∀ r ∈ refs, StrictAscending r.positions) (hqs : ∀ q ∈ qs, StrictAscending q.positions ∧ q.shift = 0)
+    (hids : (qs.map (·.id)).Nodup)
+    (hseeds : ∀ k, ∀ s ∈ t.lookup k, ∃ r ∈ refs, r.id = s.refId) :
+    ∃ out, execute cfg mode refs t qs it = .ok out :=
+  Coma.Proofs.execute_total cfg mode hP refs t qs it hrefs hqs hids hseeds
+
+/-- one resolver step can only raise when a non-empty segment has no aligned pair -/
+theorem C07_resolve_step_total (P : Params) (L R : Seg)
+    (hL : L.items = [] ∨ L.pairs ≠ []) (hR : R.items = [] ∨ R.pairs ≠ []) :
+    ∃ l r b, resolvePairB P L R = .ok (l, r, b) :=
+  Coma.Proofs.resolvePairB_total_of_pairs P L R hL hR
+
+/-- the first segment of every candidate row is empty or keeps a pair: what the join reads -/
+theorem C07_candidate_first_segment (P : Params) (C : ChainCfg) (hP : GoodParams P) (ref qry : OMap) (peaks : List Int)
+    (rev : Bool) (it : Int) (hr : StrictAscending ref.positions) (hq : StrictAscending qry.positions)
+    (row : Row) (h : alignerAlign P C ref qry peaks rev it = .ok row) :
+    ∀ s, row.segments.head? = some s → s.items = [] ∨ s.pairs ≠ [] :=
+  Coma.Proofs.alignerAlign_first_segment P C hP ref qry peaks rev it hr hq row h
+
+/-- writing never raises on rows that are valid matchings -/
+theorem C07_render_total_of_valid (cfg : Cfg) (rows : List Row)
+    (hv : ∀ r ∈ rows, r.pairs = [] ∨ ValidMatching r.rev (sitePairs r.pairs)) :
+    ∃ lines, renderRows cfg rows = .ok lines :=
+  Coma.Proofs.renderRows_total_of_valid cfg rows hv
+
+/-- the modes without a join: 'separate' (first- and second-pass files) and single-pass
+    (instances of `C07_execute_total`, kept because they need fewer hypotheses) -/
 theorem C07_separate_mode_total (cfg : Cfg) (hP : GoodParams cfg.P) (refs : List OMap) (t : SeedTable) (qs : List OMap) (it : Int)
     (hrefs : ∀ r ∈ refs, StrictAscending r.positions) (hqs : ∀ q ∈ qs, StrictAscending q.positions ∧ q.shift = 0)
     (hids : (qs.map (·.id)).Nodup)
